@@ -196,7 +196,17 @@ fn gen_enum_models(rng: &mut Rng) -> Vec<TableDef> {
                 t.columns.push(c);
             }
         }
-        if gener::loader_accepts(&m) {
+        if gener::loader_accepts(&m) && engine_ok(&m) {
+            return m;
+        }
+    }
+    vec![]
+}
+
+fn gen_plain_models(rng: &mut Rng) -> Vec<TableDef> {
+    for _ in 0..30 {
+        let m = gener::gen_models(rng, Profile::Engine);
+        if !m.is_empty() && engine_ok(&m) {
             return m;
         }
     }
@@ -352,6 +362,68 @@ fn enum_edit(rng: &mut Rng, m: &mut Vec<TableDef>) -> &'static str {
     }
 }
 
+/// The sanity assumptions of DESIGN §4.2 that `vcommon::gener` does not guarantee by itself after edits:
+/// A2 (primary-key columns are NOT NULL), A3 (enum names of a table distinct case-insensitively), A4 (a CHECK
+/// expression mentions only existing columns: generated expressions start with their column), A5 (an
+/// auto-increment key column has no other default), A7 (one enum name = one value list inside a table).
+fn engine_ok(models: &[TableDef]) -> bool {
+    for t in models {
+        let Ok(n) = t.normalize() else { return false };
+        let mut pk: Vec<String> = vec![];
+        let mut auto = false;
+        for c in &n.constraints {
+            match c {
+                TableConstraint::PrimaryKey { columns, auto_increment } => {
+                    if pk.is_empty() {
+                        pk = columns.clone();
+                        auto = *auto_increment;
+                    }
+                }
+                TableConstraint::Check { expr, .. } => {
+                    let first: String = expr.chars().take_while(|ch| ch.is_alphanumeric() || *ch == '_').collect();
+                    if !n.columns.iter().any(|c| c.name == first) {
+                        return false;
+                    }
+                }
+                _ => {}
+            }
+        }
+        for c in &n.columns {
+            if pk.contains(&c.name) && (c.nullable || (auto && c.default.is_some())) {
+                return false;
+            }
+        }
+        let enums: Vec<(&String, &EnumValues)> = n
+            .columns
+            .iter()
+            .filter_map(|c| match &c.r#type {
+                ColumnType::Complex(ComplexColumnType::Enum { name, values }) => Some((name, values)),
+                _ => None,
+            })
+            .collect();
+        for (i, (a, va)) in enums.iter().enumerate() {
+            for (b, vb) in enums.iter().skip(i + 1) {
+                if a.to_lowercase() == b.to_lowercase() && (a != b || va != vb) {
+                    return false;
+                }
+            }
+        }
+    }
+    true
+}
+
+/// A1 for hand-written steps: a key that a foreign key references is not removed by hand.
+fn key_is_referenced(s: &[TableDef], table: &str, cols: &[String]) -> bool {
+    s.iter().any(|t| {
+        t.constraints.iter().any(|c| match c {
+            TableConstraint::ForeignKey { ref_table, ref_columns, .. } => {
+                ref_table == table && ref_columns.len() == cols.len() && ref_columns.iter().all(|x| cols.contains(x))
+            }
+            _ => false,
+        })
+    })
+}
+
 fn mkplan(version: u32, actions: Vec<MigrationAction>) -> MigrationPlan {
     MigrationPlan { id: String::new(), comment: None, created_at: None, version, actions }
 }
@@ -409,7 +481,9 @@ fn hand_step(rng: &mut Rng, baseline: &[TableDef], version: u32) -> Option<Migra
                     None
                 } else {
                     let c = rng.pick(&t.constraints).clone();
-                    if matches!(c, TableConstraint::PrimaryKey { .. }) {
+                    if matches!(c, TableConstraint::PrimaryKey { .. } | TableConstraint::Unique { .. }) && key_is_referenced(&s, &t.name, c.columns()) {
+                        None
+                    } else if matches!(c, TableConstraint::PrimaryKey { .. }) {
                         // a table must keep a primary key: remove + add back in one plan
                         acts.push(MigrationAction::RemoveConstraint { table: t.name.clone(), constraint: c.clone() });
                         let _ = vespertide_planner::apply_action(&mut s, acts.last().unwrap());
@@ -477,7 +551,7 @@ struct Stats {
 fn grow(rng: &mut Rng, rows: &mut Vec<Value>, hist: usize, steps: usize, stream: &str, st: &mut Stats) {
     let enumy = stream == "enum";
     let hand = stream != "grown";
-    let mut models = if enumy { gen_enum_models(rng) } else { gener::gen_models(rng, Profile::Engine) };
+    let mut models = if enumy { gen_enum_models(rng) } else { gen_plain_models(rng) };
     let mut history: Vec<MigrationPlan> = vec![];
     let mut k = 0usize;
     for step in 0..steps {
@@ -489,7 +563,7 @@ fn grow(rng: &mut Rng, rows: &mut Vec<Value>, hist: usize, steps: usize, stream:
                 let Some(p) = hand_step(rng, &baseline, history.len() as u32 + 1) else { continue };
                 let mut h2 = history.clone();
                 h2.push(p.clone());
-                if validate_migration_plan(&p).is_ok() && schema_from_plans(&h2).is_ok() {
+                if validate_migration_plan(&p).is_ok() && schema_from_plans(&h2).map(|b| engine_ok(&b)).unwrap_or(false) {
                     emit_mig(rows, &history, &p, &format!("{}:hand", stream), hist, k);
                     k += 1;
                     history = h2;
@@ -516,7 +590,7 @@ fn grow(rng: &mut Rng, rows: &mut Vec<Value>, hist: usize, steps: usize, stream:
                         gener::edit_models(rng, &mut cand, Profile::Engine);
                     }
                 }
-                if gener::loader_accepts(&cand) {
+                if gener::loader_accepts(&cand) && engine_ok(&cand) {
                     models = cand;
                     break;
                 }
@@ -568,11 +642,31 @@ fn main() {
             for f in files {
                 let Ok(txt) = std::fs::read_to_string(&f) else { continue };
                 let Ok(v) = serde_json::from_str::<Value>(&txt) else { continue };
-                let Some(h) = v.get("history").and_then(|m| serde_json::from_value::<Vec<MigrationPlan>>(m.clone()).ok()) else {
-                    eprintln!("corpus file {:?}: no readable \"history\"", f);
-                    continue;
-                };
                 let tag = format!("corpus:{}", f.file_name().unwrap().to_string_lossy());
+                // {"models": [[TableDef..]..]}: an evolution grown by the real planner + revision fill;
+                // {"history": [MigrationPlan..]}: hand-written plans; both may be present (models first)
+                let mut h: Vec<MigrationPlan> = vec![];
+                if let Some(ms) = v.get("models").and_then(|m| serde_json::from_value::<Vec<Vec<TableDef>>>(m.clone()).ok()) {
+                    for m in &ms {
+                        let Ok(p) = plan_next_migration(m, &h) else { continue };
+                        if p.actions.is_empty() {
+                            continue;
+                        }
+                        let baseline = schema_from_plans(&h).unwrap_or_default();
+                        let Some(fp) = revision_fill(&p, &baseline) else { continue };
+                        h.push(MigrationPlan { version: p.version, ..fp });
+                    }
+                }
+                if let Some(hh) = v.get("history").and_then(|m| serde_json::from_value::<Vec<MigrationPlan>>(m.clone()).ok()) {
+                    for mut p in hh {
+                        p.version = h.len() as u32 + 1;
+                        h.push(p);
+                    }
+                }
+                if h.is_empty() {
+                    eprintln!("corpus file {:?}: neither \"models\" nor \"history\" readable", f);
+                    continue;
+                }
                 for k in 0..h.len() {
                     emit_mig(&mut rows, &h[..k], &h[k], &tag, hist, k);
                 }
